@@ -230,7 +230,8 @@ func Table() []Route {
 			Build: func(fx *Fixture) *s3c.Req { return s3c.BucketSub("GET", fx.Alpha, "cors", nil) }, PathLike: []string{"bucket"}},
 		{ID: "DeleteObjects", Method: "POST", Shape: "bucket", Sub: "delete", Mutates: true, Action: "s3:DeleteObject", ResKind: "object", ACL: "WRITE",
 			Build: func(fx *Fixture) *s3c.Req {
-				return s3c.DeleteObjects(fx.Alpha, []s3c.DelObj{{Key: fx.Obj}, {Key: fx.Obj2}})
+				// the first key is named twice: a decision taken for a key holds for its every occurrence
+				return s3c.DeleteObjects(fx.Alpha, []s3c.DelObj{{Key: fx.Obj}, {Key: fx.Obj2}, {Key: fx.Obj}})
 			}, PathLike: []string{"bucket", "Key", "VersionId"}},
 		{ID: "PutObject", Method: "PUT", Shape: "object", Mutates: true, Action: "s3:PutObject", ResKind: "object", ACL: "WRITE", Streams: true,
 			Build: func(fx *Fixture) *s3c.Req {
